@@ -163,6 +163,70 @@ pub fn run(rep: &mut Rep) {
             }
         }
     }
+    // a new session after the old one expired: identifiers of the old session's unfinished inbound QoS 2 exchanges mean
+    // nothing any more - a message of the new session that happens to reuse one is a new message for its (new) stream
+    rep.note("expired session: 1-3 inbound QoS 2 messages left unreleased, connection lost, the session has expired when the Context is connected again (interval 0, or elapsed), the application subscribes again and the broker's new session reuses the same packet identifiers (DUP=0): each message reaches the new stream exactly once; the old streams get nothing further");
+    for unreleased in 1..=3u16 {
+        for (vi, (sei, ago)) in [(None, 1u64), (Some(0u32), 1), (Some(100), 1000), (Some(5), 60)].iter().enumerate() {
+            for released_first in [false, true] {
+                let id = format!("expired:{unreleased}:{vi}:{}", released_first as u8);
+                bidx += 1;
+                if !rep.take(bidx, &id) {
+                    continue;
+                }
+                let mut w = World::boot(WorldCfg { seed: rep.seed, sei: *sei, ..Default::default() });
+                let s0 = w.start(0, Kind::Sub);
+                w.settle_check();
+                w.deliver_ack(s0, 1, 0, 0);
+                w.settle_check();
+                w.take_stream(s0);
+                let sid0 = w.sub_id_of(s0).unwrap_or(1);
+                if released_first {
+                    w.in_publish(2, 1, false, &[sid0], false);
+                    w.settle_check();
+                    w.in_pubrel(1);
+                    w.settle_check();
+                }
+                for p in 1..=unreleased {
+                    w.in_publish(2, p, false, &[sid0], false);
+                    w.settle_check();
+                }
+                w.eof();
+                w.settle_check();
+                w.resume_full(ResumeOpts { secs_ago: *ago, sei: *sei, expect_expired: true, ..Default::default() });
+                w.settle_check();
+                if !w.blind {
+                    let s1 = w.start(0, Kind::Sub);
+                    w.settle_check();
+                    if w.m[s1].pkt_id.is_some() {
+                        w.deliver_ack(s1, 1, 0, 0);
+                        w.settle_check();
+                        w.take_stream(s1);
+                        let sid1 = w.sub_id_of(s1).unwrap_or(2);
+                        for p in 1..=unreleased + 1 {
+                            w.in_publish(2, p, false, &[sid1], false);
+                            w.settle_check();
+                        }
+                        for p in 1..=unreleased + 1 {
+                            w.in_pubrel(p);
+                            w.settle_check();
+                        }
+                        // the old stream's identifier is unknown to the new session
+                        w.in_publish(1, 9, false, &[sid0], false);
+                        w.settle_check();
+                    }
+                }
+                finish(&mut w);
+                rep.add("evaluations", 1);
+                rep.add("expired_session_cases", 1);
+                rep.distinct(&("expired", unreleased, vi, released_first));
+                if super::harvest(rep, &mut w, &id) == 0 {
+                    rep.sample(|| format!("{id}: {} items compared across the two sessions", w.counters.stream_items_checked));
+                }
+                super::add_counters(rep, &w);
+            }
+        }
+    }
     // many subscriptions: N streams, messages for PRNG-chosen subsets (1-3 identifiers per PUBLISH), a third of the streams dropped midway
     let counts: Vec<usize> = if rep.quick() { vec![17, 40, 130] } else { vec![15, 16, 17, 31, 33, 64, 65, 127, 129, 257, 600] };
     rep.note(&format!("many subscriptions: {:?} subscribe() calls with live streams, 300 messages each carrying 1-3 of their identifiers, a third of the streams dropped midway", counts));
@@ -226,4 +290,11 @@ pub fn run(rep: &mut Rep) {
     wa.pubrels = vec![2, 3];
     let walks = if rep.quick() { 200 } else { 4000 };
     walk_world(rep, "walk", walks, if rep.quick() { 250 } else { 600 }, &|s| World::boot(WorldCfg { seed: s, order: (s % 4) as u8, seed_ids: Some((1, [1u32, 120, 16380, 2097148, 268435400][(s % 5) as usize])), ..Default::default() }), &wa);
+    // streams across connections of the same Context: registrations are session state
+    let mut wr = wa.clone();
+    wr.terms = vec![TermAct::Eof, TermAct::ReadErr, TermAct::ServerDisconnect { reason: 0x8b, form: 2, props: false }];
+    wr.reconnect = true;
+    wr.max_ops = 20;
+    rep.note("walks across connections: after EOF / read error / server DISCONNECT the same Context is connected again and traffic continues; with the session kept the streams keep receiving what carries their identifier, with the session expired they receive nothing further");
+    walk_world(rep, "walkrc", walks, if rep.quick() { 250 } else { 600 }, &|s| World::boot(WorldCfg { seed: s, sei: if s % 4 == 0 { None } else { Some(3600) }, order: (s % 4) as u8, ..Default::default() }), &wr);
 }
